@@ -350,6 +350,12 @@ func TestVerifC04(t *testing.T) {
 		if i == 0 {
 			n = maxRand
 		}
+		if i == 1 {
+			n = maxRand - 1 // an odd length at the upper end
+		}
+		if i == 4 {
+			n = 1<<16 + 1 // just past a power-of-two size, odd
+		}
 		if i%3 == 2 {
 			n = 2 + rng.Intn(300)
 		}
@@ -364,7 +370,7 @@ func TestVerifC04(t *testing.T) {
 	toRNA := func(s string) string { return strings.ReplaceAll(s, "T", "U") }
 	dom := func(extra string) string {
 		return "exhaustive: ACGT (DNA) and ACGU (RNA) to length " + c04Itoa(l4) + ", the 15 IUPAC codes (DNA) and the 15 codes + U (RNA) to length " + c04Itoa(l15) + extra +
-			"; seeded random: " + c04Itoa(nRand) + " sequences over ACGT / the 15 codes, lengths 2.." + c04Itoa(maxRand) + " (one of exactly " + c04Itoa(maxRand) + ")"
+			"; seeded random: " + c04Itoa(nRand) + " sequences over ACGT / the 15 codes, lengths 2.." + c04Itoa(maxRand) + " (one each of exactly " + c04Itoa(maxRand) + ", " + c04Itoa(maxRand-1) + " and 65537)"
 	}
 
 	// ---- rotation ----
